@@ -8,8 +8,9 @@ CMP = {"lt": "<", "le": "<=", "gt": ">", "ge": ">=", "eq": "==", "ne": "!="}
 
 
 class G:
-    def __init__(self, rng, max_depth=3, promote=False):
+    def __init__(self, rng, max_depth=3, promote=False, chains=False):
         self.rng = rng
+        self.chains = chains        # conditions may be chained comparisons `a < b <= c` (sugar for `a < b and b <= c`; the model sees the conjunction)
         self.max_depth = max_depth
         self.promote = promote      # top-level compound statements of the prologue may introduce names directly in their bodies (tr2)
         self.fresh = 0
@@ -37,8 +38,10 @@ class G:
             if bnames and r.random() < 0.5:
                 return ("v", r.choice(bnames))
             return ("cmp", r.choice(list(CMP)), self.int_expr(0, names), self.int_expr(0, names))
-        k = r.choice(["cmp", "cmp", "and", "or", "not", "lit"])
+        k = r.choice(["cmp", "cmp", "and", "or", "not", "lit"] + (["chain"] * 6 if self.chains else []))
         inames = [n for n in names if n not in BOOLS]
+        if k == "chain":
+            return ("chain", r.choice(list(CMP)), r.choice(list(CMP)), self.int_expr(d - 1, inames), self.int_expr(d - 1, inames), self.int_expr(d - 1, inames))
         if k == "cmp":
             return ("cmp", r.choice(list(CMP)), self.int_expr(d - 1, inames), self.int_expr(d - 1, inames))
         if k in ("and", "or"):
@@ -213,6 +216,7 @@ def py_expr(e):
     if k == "bin": return f"({py_expr(e[2])} {BIN[e[1]]} {py_expr(e[3])})"
     if k == "neg": return f"(-{py_expr(e[1])})"
     if k == "cmp": return f"({py_expr(e[2])} {CMP[e[1]]} {py_expr(e[3])})"
+    if k == "chain": return f"({py_expr(e[3])} {CMP[e[1]]} {py_expr(e[4])} {CMP[e[2]]} {py_expr(e[5])})"
     if k in ("and", "or"): return f"({py_expr(e[1])} {k} {py_expr(e[2])})"
     if k == "not": return f"(not {py_expr(e[1])})"
     if k == "ite": return f"({py_expr(e[2])} if {py_expr(e[1])} else {py_expr(e[3])})"
@@ -274,6 +278,7 @@ def sx_expr(e):
     if k == "bin": return f"(bin {e[1]} {sx_expr(e[2])} {sx_expr(e[3])})"
     if k == "neg": return f"(neg {sx_expr(e[1])})"
     if k == "cmp": return f"(cmp {e[1]} {sx_expr(e[2])} {sx_expr(e[3])})"
+    if k == "chain": return f"(and (cmp {e[1]} {sx_expr(e[3])} {sx_expr(e[4])}) (cmp {e[2]} {sx_expr(e[4])} {sx_expr(e[5])}))"
     if k in ("and", "or"): return f"({k} {sx_expr(e[1])} {sx_expr(e[2])})"
     if k == "not": return f"(not {sx_expr(e[1])})"
     if k == "ite": return f"(ite {sx_expr(e[1])} {sx_expr(e[2])} {sx_expr(e[3])})"
